@@ -274,4 +274,164 @@ def all_designs(tier="quick", seed=0):
             if cap and len(ds) > cap:
                 ds = rnd.sample(ds, cap)
         out += ds
+    out += U_rand(300 if tier == "quick" else 12000, seed)
     return out
+
+
+# ---------------------------------------------------------------------------------------------- U_rand
+def random_design(rnd):
+    """One type-directed random hierarchical design mixing every construct of the families above.  Terms are generated for a wanted width / bundle type,
+    so most designs are well-formed; whether one really is, and what it denotes, is still decided by TLC alone."""
+    bundles = {"B1": B1, "B2": B2}
+    leaves_of = {"B1": B1_LEAVES, "B2": B2_LEAVES}
+    nmods = rnd.randint(1, 3)
+    names = ["Top"] + [f"R{k}" for k in range(1, nmods)]
+    mods = {}
+    formals = {}       # module -> [(port name, width or 0, bundle type or "")]
+    for mi in reversed(range(nmods)):
+        name = names[mi]
+        sigs = []
+        for k in range(rnd.randint(2, 4)):
+            sigs.append(sig(f"s{k}", rnd.choice([1, 1, 2, 3, 4])))
+        if mi > 0:
+            for k in range(rnd.randint(1, 2)):
+                sigs.append(sig(f"p{k}", rnd.choice([1, 2, 3]), True))
+        elif rnd.random() < 0.5:
+            sigs.append(sig("io", rnd.choice([1, 2]), True))
+        bl = []
+        if mi > 0 and rnd.random() < 0.5:
+            bl.append(bnd("bp", rnd.choice(["B1", "B2"]), port=True))
+        for k in range(rnd.randint(0, 2)):
+            bl.append(bnd(f"b{k}", rnd.choice(["B1", "B2"])))
+        formals[name] = [(s["n"], s["w"], "") for s in sigs if s["port"]] + [(b["n"], 0, b["of"]) for b in bl if b["port"]]
+        insts = []
+        ninst = rnd.randint(1, 3)
+        targets = []
+        for k in range(ninst):
+            cands = [("ext", "L1"), ("ext", "L12"), ("ext", "L3")] + [("mod", n) for n in names[mi + 1:]] * 3
+            kk, ref = rnd.choice(cands)
+            fs = [(p["n"], p["w"], "") for p in LEAVES[ref]] if kk == "ext" else formals[ref]
+            kind, arr = "inst", 0
+            r = rnd.random()
+            if r < 0.15:
+                kind, arr = "array", rnd.randint(2, 3)
+            elif r < 0.25 and all(not b for _, _, b in fs):
+                kind = "pair"
+            targets.append((f"i{k}", kk, ref, fs, kind, arr))
+
+        def sig_term(w, depth=0, top=False):
+            opts = []
+            exact = [s for s in sigs if s["w"] == w]
+            wider = [s for s in sigs if s["w"] > w]
+            if exact:
+                opts += ["sig"] * 3
+            if wider:
+                opts += ["slice", "slice", "rslice"]
+                if any(s["w"] >= 2 * w - 1 and w > 1 for s in wider):
+                    opts.append("stride")
+            if w >= 2 and depth < 2:
+                opts += ["cat", "cat"]
+            if depth < 2:
+                opts.append("slice_of_cat")
+            prefs = [(n, p) for n, kk, ref, fs, kind, arr in targets if kind == "inst" for p, pw, pb in fs if pw == w and not pb]
+            if prefs and depth < 2:
+                opts += ["pref"]
+            wprefs = [(n, p, pw) for n, kk, ref, fs, kind, arr in targets if kind == "inst" for p, pw, pb in fs if pw > w and not pb]
+            if wprefs and depth < 2:
+                opts.append("slice_of_pref")
+            brefs = [(b["n"], path) for b in bl for path, lw in leaves_of[b["of"]] if lw == w]
+            if brefs:
+                opts += ["bref"]
+            if top and rnd.random() < 0.08:
+                return Nc(rnd.randint(1, 3), rnd.choice(["", "", "open"]))
+            if not opts:
+                return Cat(*[sig_term(1, depth + 1) for _ in range(w)]) if w > 1 and depth < 3 else Sig(sigs[0]["n"])
+            c = rnd.choice(opts)
+            if c == "sig":
+                return Sig(rnd.choice(exact)["n"])
+            if c in ("slice", "rslice", "stride"):
+                if c == "stride":
+                    s = rnd.choice([s for s in wider if s["w"] >= 2 * w - 1])
+                    st = rnd.randint(0, s["w"] - (2 * w - 1))
+                    return Slc(Sig(s["n"]), R(st, st + 2 * w - 1, 2))
+                s = rnd.choice(wider)
+                st = rnd.randint(0, s["w"] - w)
+                if w == 1 and rnd.random() < 0.6:
+                    return Slc(Sig(s["n"]), I(rnd.choice([st, st - s["w"]])))
+                if c == "rslice":
+                    return Slc(Sig(s["n"]), R(st + w - 1, st - 1 if st > 0 else None, -1))
+                return Slc(Sig(s["n"]), R(st if st or rnd.random() < 0.5 else None, st + w if st + w < s["w"] or rnd.random() < 0.5 else None))
+            if c == "cat":
+                k = rnd.randint(1, w - 1)
+                parts = [sig_term(k, depth + 1), sig_term(w - k, depth + 1)]
+                return Cat(*parts)
+            if c == "slice_of_cat":
+                extra = rnd.randint(1, 2)
+                inner = Cat(sig_term(extra, depth + 1), sig_term(w, depth + 1)) if rnd.random() < 0.5 else Cat(sig_term(w, depth + 1), sig_term(extra, depth + 1))
+                st = rnd.randint(0, extra)
+                return Slc(inner, I(st)) if w == 1 else Slc(inner, R(st, st + w))
+            if c == "pref":
+                n, p = rnd.choice(prefs)
+                return Pref(n, p)
+            if c == "slice_of_pref":
+                n, p, pw = rnd.choice(wprefs)
+                st = rnd.randint(0, pw - w)
+                return Slc(Pref(n, p), I(st)) if w == 1 else Slc(Pref(n, p), R(st, st + w))
+            n, path = rnd.choice(brefs)
+            return Bref(n, *path)
+
+        def bundle_term(bt, depth=0):
+            opts = ["anon"]
+            same = [b["n"] for b in bl if b["of"] == bt]
+            if same:
+                opts += ["bund"] * 3
+            subs = [b["n"] for b in bl if b["of"] == "B2"] if bt == "B1" else []
+            if subs:
+                opts.append("sub")
+            pp = [(n, p) for n, kk, ref, fs, kind, arr in targets if kind == "inst" for p, pw, pb in fs if pb == bt]
+            if pp and depth == 0:
+                opts.append("pref")
+            c = rnd.choice(opts)
+            if c == "bund":
+                return Bund(rnd.choice(same))
+            if c == "sub":
+                return Bref(rnd.choice(subs), "sub")
+            if c == "pref":
+                n, p = rnd.choice(pp)
+                return Pref(n, p)
+            if bt == "B1":
+                mem = {"x": sig_term(1, 1), "y": sig_term(2, 1)}
+            else:
+                mem = {"s": sig_term(1, 1), "sub": bundle_term("B1", depth + 1)}
+            if rnd.random() < 0.3:
+                mem = dict(reversed(list(mem.items())))
+            return (AnonDict if rnd.random() < 0.3 else Anon)(**mem)
+
+        for n, kk, ref, fs, kind, arr in targets:
+            conns = []
+            for p, pw, pb in fs:
+                if pb:
+                    conns.append((p, bundle_term(pb)))
+                elif kind == "array":
+                    conns.append((p, sig_term(pw * arr if rnd.random() < 0.6 else pw, top=False)))
+                elif kind == "pair":
+                    r = rnd.random()
+                    if r < 0.4:
+                        conns.append((p, sig_term(pw)))
+                    else:
+                        conns.append((p, Anon(p=sig_term(pw, 1), n=sig_term(pw, 1))))
+                else:
+                    conns.append((p, sig_term(pw, top=True)))
+            insts.append(inst(n, ref, conns, kind=kind, arr=arr, k=kk))
+        # a port referenced by somebody needs no explicit connection: sometimes drop one that is referenced
+        pr = []
+        for b in bl:
+            pr += bprobes(b["n"], leaves_of[b["of"]])
+        mods[name] = mod(sigs, insts + pr, bl)
+    order = {n: mods[n] for n in reversed(list(mods))}
+    return design(order, bundles=bundles)
+
+
+def U_rand(n=300, seed=0):
+    rnd = random.Random(seed * 7919 + 17)
+    return [("U_rand", random_design(rnd)) for _ in range(n)]
